@@ -1,8 +1,11 @@
 package checks
 
 import (
+	"github.com/pion/ice/v4"
+	"net"
 	"testing/synctest"
 	"time"
+	"verif/sim/simnet"
 
 	"verif/sim/core"
 	"verif/sim/rig"
@@ -70,6 +73,49 @@ func runC11Gather(c *core.Ctx) {
 	if nils != 1 {
 		c.Failf("C11/nil-count", "the cycle ran to completion (nothing outstanding, gather timeout passed) and delivered %d end-of-candidates markers (%s)", nils, cfg)
 		return
+	}
+	if t.Bias(1, 3, "second-cycle-without-candidates") && !cfg.udpMux && !cfg.tcpMux && !cfg.udpMuxSrflx {
+		// ICE restart at a moment when the host has no usable interface (network down): the next cycle finds
+		// nothing to publish. It is a cycle all the same: it completes, and its one end-of-candidates marker
+		// is delivered - after the marker of the previous cycle, with no candidate in between.
+		if err := g.ag.A.Restart("", ""); err != nil {
+			c.Failf("harness/restart", "%v", err)
+			return
+		}
+		synctest.Wait()
+		saved := g.H.Ifaces
+		var down []simnet.IfaceSpec
+		for _, ifc := range saved {
+			ifc.Flags = net.FlagBroadcast // not up
+			down = append(down, ifc)
+		}
+		g.H.Ifaces = down
+		c.Fault("no-interface-at-restart")
+		before := len(g.ag.CandSeq())
+		if err := g.ag.A.GatherCandidates(); err != nil {
+			c.Failf("C11/gather-refused-after-restart", "GatherCandidates after Restart: %v", err)
+			return
+		}
+		g.drain(false)
+		time.Sleep(cfg.stunTimeout + time.Second)
+		synctest.Wait()
+		g.drain(false)
+		g.H.Ifaces = saved
+		if st, _ := g.ag.A.GetGatheringState(); st == ice.GatheringStateComplete {
+			nils2, cands2 := 0, 0
+			for _, cand := range g.ag.CandSeq()[before:] {
+				if cand == nil {
+					nils2++
+				} else {
+					cands2++
+				}
+			}
+			if nils2 != 1 {
+				c.Failf("C11/nil-count", "the second cycle (after Restart, no interface available) ran to completion - gathering state Complete - and delivered %d end-of-candidates markers and %d candidates (%s)", nils2, cands2, cfg)
+				return
+			}
+			c.Probe("cycle-without-candidates-delivers-its-nil")
+		}
 	}
 	if !g.closeAgent() {
 		c.Failf("C11/close-did-not-return", "Close did not return")
